@@ -39,6 +39,18 @@ def run_gen_half(ctx, info):
                                     reset_value=rv)
             huge["allow_bit_overlap"] = True
             d["objects"].append(huge)
+        # a generated enum named again (Direct conversion) on a field of ANOTHER width / carrier class: the carrier of
+        # every accessor follows the field's own width, whatever the type it converts to
+        if rng.random() < 0.2:
+            w0 = rng.choice([1, 2, 3])
+            vs = [adef.mk_variant("Va"), adef.mk_variant("Vb", "default")]
+            en = adef.mk_enum("Mode" + str(i % 7), vs)
+            w1 = rng.choice([w0, 8, 9, 16, 17, 33])
+            size = 8 * ((8 + w1 + 7) // 8 + 1)
+            d["objects"].append(adef.mk_register("Reuse", 902, size, [
+                adef.mk_field("mode", "uint", 0, w0, conv=en),
+                adef.mk_field("last_mode", "uint", 8, 8 + w1, conv=adef.mk_direct(en["name"], True))],      # `try`: the method choice of a non-try reuse is C07's model (Enum.conv_choice)
+                byte_order=rng.choice(["LE", "BE"])))
         syntax = rng.choice(["dsl", "dsl", "json", "yaml", "toml"])
         if syntax != "dsl":
             for o, _ in adef.walk(d["objects"]):
